@@ -359,8 +359,111 @@ def _gen_large(rng, tier):
         yield Case("charstatssite", [1, rs, L - 1], True, "charstatssite-large")
 
 
+# --- Frameshifts / Stops (the statistics goalign phasent logs) ---------------------------------------------------
+
+FS_CODONS = ["TAA", "TAG", "TGA", "AGA", "AGG", "taa", "UAA", "uag", "tGa", "TAR", "TRA", "NNN", "ATG", "GCC", "AAA", "ctg",
+             "TGG", "CAU", "ggy", "ATA"]
+FS_STOPS = {0: {"TAA", "TAG", "TGA"}, 1: {"TAA", "TAG", "AGA", "AGG"}, 2: {"TAA", "TAG"}}
+
+
+def _fs_pair(rng, lens=None):
+    """one reference / row pair: columns of residue pairs interrupted by gap runs of every length 0..7 in either row, at
+    the start, inside and at the end; the residues of the row are codons (stops of the three codes, lower case, U,
+    IUPAC codes) after 0..2 loose characters: stop codons in and out of frame"""
+    stream = list("".join(rng.choice("ACGT") for _ in range(rng.choice([0, 0, 1, 2]))) +
+                  "".join(rng.choice(FS_CODONS) for _ in range(12)))
+    ref, row = [], []
+
+    def run(which, n):
+        for _ in range(n):
+            if which == 0:      # gap in the reference: insertion in the row
+                ref.append("-"); row.append(stream.pop(0) if stream else "A")
+            else:               # gap in the row: deletion
+                ref.append(rng.choice("ACGTacgt")); row.append("-")
+    lens = lens or list(range(8))
+    run(rng.randint(0, 1), rng.choice(lens) if rng.random() < 0.6 else 0)
+    for _ in range(rng.randint(0, 4)):
+        for _ in range(rng.randint(1, 7)):
+            ref.append(rng.choice("ACGTacgtN")); row.append(stream.pop(0) if stream else "C")
+        run(rng.randint(0, 1), rng.choice(lens))
+        if rng.random() < 0.2:  # a run in the other row right after: adjacent insertion and deletion
+            run(rng.randint(0, 1), rng.choice(lens))
+    for _ in range(rng.randint(0, 5)):
+        ref.append(rng.choice("ACGT")); row.append(stream.pop(0) if stream else "G")
+    run(rng.randint(0, 1), rng.choice(lens) if rng.random() < 0.5 else 0)
+    return "".join(ref), "".join(row)
+
+
+def _py_complete_from(ref, row):
+    n = 0
+    for k in range(len(ref)):
+        if ref[k] != "-":
+            n += 1
+        if row[k] != "-" and n % 3 == 1:
+            return k
+    return None
+
+
+def _py_first_stop(res, code):
+    for j in range(len(res) // 3):
+        if res[3 * j:3 * j + 3].upper().replace("U", "T") in FS_STOPS[code]:
+            return 3 * (j + 1)
+    return -1
+
+
+def _py_stop_doc(ref, row, flag, code, cols=None):
+    """the documented meaning: first stop codon of the residues of the row (of its complete part with the option);
+    `cols`: only the first `cols` columns are looked at"""
+    if cols is not None:
+        ref, row = ref[:max(cols, 0)], row[:max(cols, 0)]
+    if flag:
+        k = _py_complete_from(ref, row)
+        if k is None:
+            return -1
+        row = row[k:]
+    return _py_first_stop(row.replace("-", ""), code)
+
+
+def _gen_frame(rng, tier):
+    import os
+    every = os.environ.get("C14_FRAME_ALL") == "1"
+    N = 150 if tier == "quick" else 3000
+    for i in range(N):
+        ref, row = _fs_pair(rng, [i % 8] if i % 3 == 0 else None)
+        rows = [("r", ref), ("q", row)]
+        extra = rng.random() < 0.15
+        if extra:   # further rows: the same reference, other rows
+            for j in range(rng.randint(1, 2)):
+                src = list(_fs_pair(rng)[1].replace("-", "")) + ["-"] * len(ref)
+                rng.shuffle(src)
+                rows.append(("x%d" % j, "".join(src[:len(ref)])))
+        flag = rng.randint(0, 1)
+        gappy = "-" in ref or "-" in row
+        yield Case("frameshifts", [1, rows_str(rows), flag], gappy, "frameshifts-multi" if extra else "frameshifts")
+        code = rng.choice([0, 1, 2])
+        L = len(ref)
+        # two documented-meaning deviations of Stops are kept out of the generator (DESIGN 11.4: candidate defects):
+        # the last two columns are never read, and with more than two rows `phase` / `started` are carried over
+        full = [_py_stop_doc(ref, r[1], flag, code) for r in rows[1:]]
+        cut = [_py_stop_doc(ref, r[1], flag, code, L - 2) for r in rows[1:]]
+        if every or (full == cut and (len(rows) == 2 or not flag)):
+            yield Case("stops", [1, rows_str(rows), flag, code], any(p > 0 for p in full),
+                       "stops-multi" if extra else "stops")
+    for code in (-1, 3, 99):
+        yield Case("stops", [1, "r:ATGTAAGG,q:ATGTAAGG", 1, code], True, "stops-unknown-code")
+        yield Case("stops", [1, "_", 0, code], True, "stops-unknown-code")
+    for flag in (0, 1):
+        yield Case("frameshifts", [1, "_", flag], False, "frameshifts-empty")
+        yield Case("stops", [1, "_", flag, 0], False, "stops-empty")
+        yield Case("frameshifts", [1, "r:ATG-A", flag], False, "frameshifts-one-row")
+        yield Case("stops", [1, "r:ATGTAAAA", flag, 0], False, "stops-one-row")
+        yield Case("frameshifts", [0, "r:AR-NDA,q:ARN-DA", flag], True, "frameshifts-protein")
+
+
 def gen(rng, tier):
     for c in _gen_large(rng, tier):
+        yield c
+    for c in _gen_frame(rng, tier):
         yield c
     from driver import multigen
     for c in _gen_core(rng, tier):
